@@ -485,6 +485,81 @@ fn c17_driver_runs_kept_args() {
 // subset of kept runtime arguments, `_print` stubbed to a line counter - were tried and did not finish in 1800 s
 // (7.5 GB): the terse lister stays outside the claim; seeded change C14-B is not caught.)
 
+// ---- C14(b): terse listing vs what a test run executes (ignore resolution)
+
+struct LGhost {
+    magic: u64,
+    lines: u32,
+}
+static mut LG: LGhost = LGhost { magic: 0xD1FA_57A7_1C00_1403, lines: 0 };
+/// Kani's std replaces `println!` by a macro that only evaluates its arguments, so `_print` is never reached and a
+/// printed line cannot be observed directly. `run_tree_list` pushes a node's display name onto the path right after
+/// the ignore test and right before it prints the leaf's line (or descends): the push of the *leaf's* name is taken
+/// as "the line is printed". Building the path text itself is cut out (the text cannot be observed anyway).
+fn push_str_rec(_s: &mut String, t: &str) {
+    unsafe {
+        if t.len() == 1 && t.as_bytes()[0] == b'b' {
+            LG.lines += 1;
+        }
+    }
+}
+static mut LOPTS: [u8; 2] = [0; 2];
+fn lo0() -> BenchOptions<'static> { BenchOptions { ignore: opt_bool(unsafe { LOPTS[0] }), ..Default::default() } }
+fn lo1() -> BenchOptions<'static> { BenchOptions { ignore: opt_bool(unsafe { LOPTS[1] }), ..Default::default() } }
+
+// @cell props=C14 tier=quick kind=core timeout=1500 mem=20 cls=K unwindre=try_from_fn_erased.*CounterSet9overwrite.*\.0$:6
+// @desc the real run_tree_list on module -> group -> benchmark with ignore symbolic (unset/false/true) on the group,
+// @desc the benchmark and the runner, group/benchmark option sets present or absent, and --ignored/--include-ignored
+// @desc symbolic: exactly one line is printed iff a test run executes the case, i.e. iff should_run(effective ignore)
+// @desc with effective ignore = runner value, else the benchmark's, else the group's, else false
+#[kani::proof]
+#[kani::unwind(3)]
+#[kani::stub(std::string::String::push_str, push_str_rec)]
+fn c14_terse_list_matches_run_ignore() {
+    let g_ign: u8 = kani::any();
+    let b_ign: u8 = kani::any();
+    // the runner-level `ignore` cannot be set through the public API (no builder, no flag): always unset
+    let r_ign: u8 = 0;
+    kani::assume(g_ign < 3 && b_ign < 3);
+    let g_has: bool = kani::any();
+    let b_has: bool = kani::any();
+    unsafe { LOPTS = [g_ign, b_ign]; }
+    let group = GroupEntry {
+        meta: EntryMeta { display_name: "g", raw_name: "g", module_path: "m", location: LOC,
+            bench_options: if g_has { Some(LazyLock::new(lo0)) } else { None } },
+        generic_benches: None,
+    };
+    let bench = BenchEntry {
+        meta: EntryMeta { display_name: "b", raw_name: "b", module_path: "m::g", location: LOC,
+            bench_options: if b_has { Some(LazyLock::new(lo1)) } else { None } },
+        bench: BenchEntryRunner::Plain(bench_fn),
+    };
+    let tree = vec![EntryTree::Parent { raw_name: "m", group: None, children: vec![
+        EntryTree::Parent { raw_name: "g", group: Some(&group), children: vec![
+            EntryTree::Leaf { entry: AnyBenchEntry::Bench(&bench), args: None } ] } ] }];
+    let mut d = Divan::default();
+    d.bench_options.ignore = opt_bool(r_ign);
+    d.run_ignored = any_run_ignored();
+    d.run_tree_list(&tree, "", None);
+    let eff = opt_bool(r_ign)
+        .or(if b_has { opt_bool(b_ign) } else { None })
+        .or(if g_has { opt_bool(g_ign) } else { None })
+        .unwrap_or(false);
+    let runs = d.run_ignored.should_run(eff);
+    unsafe {
+        kani::cover!(LG.lines == 1 && runs && eff);
+        kani::cover!(LG.lines == 0 && !runs && !eff);
+        kani::cover!(LG.lines == 1 && runs && g_has && g_ign == 1 && b_has && b_ign == 2);
+        assert_eq!(LG.lines, runs as u32);
+        assert_eq!(G.ran, 0);
+        assert_eq!(LG.magic, 0xD1FA_57A7_1C00_1403);
+    }
+    std::mem::forget(tree);
+    std::mem::forget(d);
+    std::mem::forget(group);
+    std::mem::forget(bench);
+}
+
 static TLIST2: [usize; 3] = [0, 1, 3];
 
 // @cell props=C15 tier=quick kind=core timeout=1800 mem=20 cls=K
